@@ -10,7 +10,9 @@ static inline double verif_log(double x) {
   if (x == 0.0) return VERIF_MINF;
   if (x == 1.0) return 0.0;
   if (x == VERIF_PINF) return VERIF_PINF;
-  return __CPROVER_uninterpreted_log(x);
+  double r = __CPROVER_uninterpreted_log(x);
+  __CPROVER_assume(VERIF_ISFINITE(r));     /* TRUSTED axiom: the logarithm of a finite positive number is finite */
+  return r;
 }
 double __CPROVER_uninterpreted_fmul(double, double);
 double __CPROVER_uninterpreted_fdiv(double, double);
